@@ -169,7 +169,7 @@ PROPS = {
   families=[dict(name="infer", model="infer", quick=2500, thorough=60000)],
   laws=["law_c09"],
   rule="family infer: a type of the zoo (harness/zoo_gen.go, generated by tools/gen_zoo.py: ~150 declared struct types over every scalar kind, named scalars, pointers, slices, arrays incl. [0]T, string- and named-string-keyed maps, any, time.Time/slog.Level/big.Int, anonymous struct types, json tags with names incl. odd and invalid ones, '-', '-,', omitempty, omitzero, trailing commas, jsonschema tags, embedded structs by value and pointer up to 3 levels incl. unexported types, JSON-name and Go-name conflicts through embedding, tagged and non-struct embedded fields, recursive and mutually recursive types, unsupported kinds at depth) x ForOptions (IgnoreInvalidTypes, typeschemasnull, TypeSchemas entries for named types occurring in the type: faithful, unfaithful, type-less, nil, invalid for embedding) x 6 typed values (zero values, nils, empty and 20-element containers, min/max of every sized integer, float32/float64 extremes) x 15 single-point mutations of their encodings (dropped key, added key, swapped JSON type, integers at and past every bound, null, changed array length); compared with the model: outcome, the marshalled schema document, every encoding (model of encoding/json against the real encoder), every verdict; law: a mutated document that the inferred schema accepts decodes into the type with DisallowUnknownFields (types without marshaler types and without TypeSchemas)",
-  partial="the decoder is not modelled: the law is evaluated on the package and the real decoder; the schema side (which documents are accepted) is proved to be conforms(type, document) (C09_verdict) and the package's verdicts are compared with it",
+  partial="the decoder is a model (inf/Decode.v) compared with the real decoder on every mutated document of its domain, not verified code; the schema side is proved to be conforms(type, document) and conforms implies the decoder model accepts",
   trusted_base=["encoding/json's decoder as the oracle of 'decodes into T'"],
   assumptions=["integers of mutated documents stay within int64 (the property's domain)"],
  ),
